@@ -133,6 +133,7 @@ def summarise_for(interp, node, st, lo, hi):
     st.env.vars[ivar] = i
     st.assume(z3.And(T.to_z3(lo) <= i, i < T.to_z3(hi)))
     base_pc = len(st.pc)
+    fresh_mark = T.Fresh.n
 
     def body():
         interp.exec_block(node.body, st)
@@ -162,6 +163,52 @@ def summarise_for(interp, node, st, lo, hi):
         cs = snap.pc[base_pc:]
         return T.land(*cs) if cs else True
 
+    def check_no_fresh(t, what):
+        """symbols created while executing the body stand for per-iteration values; a plain
+        constant cannot represent them after summarisation (it would be shared by all
+        iterations), so only *defined* functions (Sum/Max/First) may be new."""
+        if not is_sym(t):
+            return
+        allowed = T.defined_function_ids()
+        stack, seen = [t], set()
+        formal = set()
+        while stack:
+            cur = stack.pop()
+            for x in T.subterms(cur).values():
+                if not z3.is_app(x) or x.decl().kind() != z3.Z3_OP_UNINTERPRETED:
+                    continue
+                d = x.decl()
+                if d.get_id() in seen:
+                    continue
+                seen.add(d.get_id())
+                if d.get_id() in allowed:
+                    for reg_ in (T.SumDef.registry, T.ExtDef.registry, T.FirstDef.registry):
+                        if d.get_id() in reg_:
+                            df = reg_[d.get_id()]
+                            formal.update(p_.decl().get_id() for p_ in df.params)
+                            formal.add(df.bv.decl().get_id())
+                            stack.append(df.body)
+                    continue
+                if d.get_id() in formal:
+                    continue
+                nm = d.name()
+                if "!" in nm:
+                    try:
+                        k = int(nm.rsplit("!", 1)[1])
+                    except ValueError:
+                        continue
+                    if k > fresh_mark and d.get_id() not in mid_fids and not any(x.eq(m) for m, _ in mid_scalar.values()) \
+                            and not x.eq(i) and not nm.startswith(("k!", "s!", "j!", "q!", "sk", "ix!")):
+                        import os
+                        if os.environ.get("PYVC_DEBUG"):
+                            print("LEAK", nm, "in", str(t)[:1500])
+                        raise Unsupported(f"{what}: symbol {nm} introduced inside a summarised loop body (needs a loop invariant)")
+
+    for snap in norm + brk:
+        check_no_fresh(T.to_z3(path_cond(snap)) if is_sym(path_cond(snap)) else None, "path condition")
+        for n in mid_scalar:
+            v = snap.env.vars.get(n)
+            check_no_fresh(v if is_sym(v) else None, n)
     # untouched heap check: no other pre-existing object may have changed
     for snap in norm + brk:
         for k, v in heap_ids_before.items():
@@ -175,7 +222,6 @@ def summarise_for(interp, node, st, lo, hi):
 
     # ---- break handling
     B = hi
-    brk_assume = []
     if brk:
         bconds = []
         for snap in brk:
@@ -192,14 +238,8 @@ def summarise_for(interp, node, st, lo, hi):
                     raise Unsupported("array effects before break")
             bconds.append(pc)
         bcond = T.lor(*bconds)
-        Bc = T.Fresh.int("brk")
-        k = T.Fresh.int("k")
-        lo_z, hi_z = T.to_z3(lo), T.to_z3(hi)
-        at = lambda t: z3.substitute(T.to_z3(bcond), (i, t))
-        brk_assume = [z3.And(Bc >= lo_z, z3.Or(Bc <= hi_z, Bc == lo_z)),
-                      z3.ForAll([k], z3.Implies(z3.And(k >= lo_z, k < Bc), z3.Not(at(k)))),
-                      z3.Implies(z3.And(Bc < hi_z), at(Bc))]
-        B = Bc
+        bvk = T.Fresh.int("k")
+        B = T.make_first(lo, hi, bvk, z3.substitute(T.to_z3(bcond), (i, bvk)))
 
     # ---- scalar effects
     deltas = {}      # name -> merged increment term T(i)  (accumulators)
@@ -304,6 +344,8 @@ def summarise_for(interp, node, st, lo, hi):
                 continue
             G = T.lor(*[g(tuple(idx)) for g, _ in a1.ups])
             V = a1.get(tuple(idx))
+            check_no_fresh(T.to_z3(G) if is_sym(G) else None, aname)
+            check_no_fresh(V if is_sym(V) else None, aname)
             layers.append((pc, G, V))
         # find owner component k: G -> idx[k] == i  (for every layer)
         owner = None
@@ -335,7 +377,7 @@ def summarise_for(interp, node, st, lo, hi):
             ik = idx[owner]
             fbody_vars = [z3.Var(j, T.IntS) for j in range(len(idx))]
 
-            def mk(pc, G, V, a0f=a0f, owner=owner):
+            def mk(pc, G, V, a0f=a0f, owner=owner, idx=idx, f=f):
                 def guard(ix):
                     sub = [(i, T.to_z3(ix[owner]))] + [(idx[j], T.to_z3(ix[j])) for j in range(len(idx))]
                     c = z3.substitute(T.to_z3(T.land(pc, G)), *sub)
@@ -360,33 +402,43 @@ def summarise_for(interp, node, st, lo, hi):
                 arr = arr.updated(g, v)
             new_arrays[rid] = arr
         else:
-            # cell accumulators / last-write cells: guard independent of i
+            # cell accumulators: A[c] += t(i) with the cell index c independent of i
             arr = a0
-            for pc, G, V in res_layers:
-                if is_sym(T.to_z3(T.land(pc, G))) and any(c.eq(i) for c in T.free_consts(T.to_z3(G))):
-                    raise Unsupported(f"{aname}: store index depends on the loop variable non-injectively")
-                cellmid = f(*idx)
-                d = z3.simplify(T.to_real(T.to_z3(V)) - T.to_real(cellmid), som=True)
-                if T.mentions(d, (), {f.get_id()}):
-                    if T.mentions(T.to_z3(V), (), {f.get_id()}):
+            for snap in norm:
+                pc = path_cond(snap)
+                pcz = subst_closed(T.to_z3(pc)) if is_sym(pc) else pc
+                if is_sym(pcz) and T.mentions(pcz, mid_cids, mid_fids):
+                    raise Unsupported(f"{aname}: path condition depends on loop-carried state")
+                a1 = snap.heap[rid]
+                for g, vfn in a1.ups:
+                    spec = getattr(g, "spec", None)
+                    if spec is None or any(sp[0] != "i" for sp in spec):
+                        raise Unsupported(f"{aname}: slice store that is not owned by the loop index")
+                    cell_idx = [sp[1] for sp in spec]
+                    for e in cell_idx:
+                        if is_sym(e) and (T.mentions(e, mid_cids | {i.get_id()}, mid_fids)):
+                            raise Unsupported(f"{aname}: store index depends on the loop variable non-injectively")
+                    val = vfn(tuple(cell_idx))
+                    val = subst_closed(T.to_z3(val)) if is_sym(val) else val
+                    cell = f(*[T.to_z3(e) for e in cell_idx])
+                    d = z3.simplify(T.to_real(T.to_z3(val)) - T.to_real(cell), som=True)
+                    if T.mentions(d, mid_cids, mid_fids):
                         raise Unsupported(f"{aname}: cell update is not an accumulation")
-                    # last write wins: value of the last iteration in which the path condition held
-                    raise Unsupported(f"{aname}: loop-invariant cell overwritten in a loop")
-                bv = T.Fresh.int("k")
-                inc = T.ite(pc, d, 0) if not (isinstance(pc, bool) and pc) else d
-                inc_k = z3.substitute(T.to_real(T.to_z3(inc)), (i, bv))
+                    inc = T.ite(pcz, d, 0) if not (isinstance(pcz, bool) and pcz) else d
+                    bv = T.Fresh.int("k")
+                    inc_k = z3.substitute(T.to_real(T.to_z3(inc)), (i, bv))
+                    total = T.make_sum(lo, B, bv, inc_k)
 
-                def mk2(G=G, inc_k=inc_k, bv=bv, a0f=a0):
-                    def guard(ix):
-                        return z3.substitute(T.to_z3(G), *[(idx[j], T.to_z3(ix[j])) for j in range(len(idx))]) if is_sym(G) else G
+                    def mk2(cell_idx=cell_idx, total=total, arr_prev=arr):
+                        def guard(ix):
+                            return T.land(*[T.cmp("==", x, e) for x, e in zip(ix, cell_idx)])
 
-                    def val(ix):
-                        body = z3.substitute(inc_k, *[(idx[j], T.to_z3(ix[j])) for j in range(len(idx))])
-                        return T.add(arr_prev.get(ix), T.make_sum(lo, B, bv, body))
-                    return guard, val
-                arr_prev = arr
-                g, v = mk2()
-                arr = arr.updated(g, v)
+                        def val(ix):
+                            return T.add(arr_prev.get(ix), total)
+                        guard.spec = [("i", e) for e in cell_idx]
+                        return guard, val
+                    g2, v2 = mk2()
+                    arr = arr.updated(g2, v2)
             new_arrays[rid] = arr
 
     # ---- rebuild the post-loop state
@@ -396,8 +448,6 @@ def summarise_for(interp, node, st, lo, hi):
             if n not in mid_scalar and n in snap.env.vars and n not in pre.env.vars:
                 post_env_extra[n] = Poison(f"{n} is local to a summarised loop")
     st.restore(pre)
-    for a in brk_assume:
-        st.assume(a)
     nonempty = T.cmp(">", B, lo)
     last = T.sub(B, 1)
     for n, (m, v0) in mid_scalar.items():
